@@ -539,6 +539,14 @@ func aggregate(fn string, pts []point) (Cell, []int64) {
 	panic("qref: unknown function " + fn)
 }
 
+func distinctCalls(sel []Call) int {
+	seen := map[Call]bool{}
+	for _, c := range sel {
+		seen[c] = true
+	}
+	return len(seen)
+}
+
 func isSelector(fn string) bool { return fn == "min" || fn == "max" || fn == "first" || fn == "last" }
 
 func floorDiv(a, b int64) int64 {
@@ -625,8 +633,8 @@ func evalAgg(q Query, rows []Row) Expected {
 			switch {
 			case has:
 				er.Times = []int64{lo}
-			case len(q.Sel) == 1 && isSelector(q.Sel[0].Func):
-				er.Times = selTimes
+			case distinctCalls(q.Sel) == 1 && isSelector(q.Sel[0].Func):
+				er.Times = selTimes // (the same call written twice is still a lone selector)
 			case q.HasTMin:
 				er.Times = []int64{q.TMin}
 			default:
@@ -684,6 +692,13 @@ func evalAgg(q Query, rows []Row) Expected {
 					f, _ := strconv.ParseFloat(q.Fill, 64)
 					v := model.FloatV(f)
 					er.Cells[ci] = exact(&v)
+					if f != math.Trunc(f) {
+						// an integer-typed column (count, or an aggregate of an integer field) shows the number truncated
+						tv := model.FloatV(math.Trunc(f))
+						if q.Sel[ci].Func == "count" || (q.Sel[ci].Field == "i" && q.Sel[ci].Func != "mean") {
+							er.Cells[ci] = Cell{Alts: []*model.Value{&v, &tv}}
+						}
+					}
 					if q.Sel[ci].Field == "b" || q.Sel[ci].Field == "s" {
 						if q.Sel[ci].Func != "count" {
 							er.Cells[ci] = Cell{Any: true} // how a number fills a bool/string column is not specified
@@ -876,7 +891,7 @@ func matchRows(exp []ERow, got [][]any) string {
 	ei := 0
 	for ei < len(exp) {
 		// block of expected rows sharing their (first admissible) time
-		ej := ei
+		ej := ei + 1 // a row with several admissible timestamps forms a block of its own
 		for ej < len(exp) && sameTimes(exp[ej], exp[ei]) {
 			ej++
 		}
